@@ -94,6 +94,7 @@ type Engine struct {
 	opaqueUsed  map[string]bool
 	globalCache map[*ssa.Global]map[string]string
 	typeTags map[string]int
+	errText map[string]int
 	funcIndex map[string]*ssa.Function
 }
 
